@@ -195,6 +195,14 @@ fn kmers(o: &mut Out, r: &mut rng::Rng, rounds: usize) {
         kmer_case::<Dna, 1, usize>(o, (w & 0b11) as usize);
         kmer_case::<Dna, 8, usize>(o, (w & 0xFFFF) as usize);
         kmer_case::<Dna, 27, usize>(o, (w & ((1 << 54) - 1)) as usize);
+        // bit widths just above 32 bits and not byte aligned (33..39 bits), every storage type
+        kmer_case::<Dna, 17, usize>(o, (w & ((1 << 34) - 1)) as usize);
+        kmer_case::<Dna, 18, u64>(o, w & ((1 << 36) - 1));
+        kmer_case::<Dna, 19, u128>(o, (w & ((1 << 38) - 1)) as u128);
+        kmer_case::<Iupac, 9, usize>(o, (w & ((1 << 36) - 1)) as usize);
+        kmer_case::<bio_seq::codec::masked::Iupac, 7, usize>(o, (w & ((1 << 35) - 1)) as usize);
+        kmer_case::<Dna, 9, usize>(o, (w & ((1 << 18) - 1)) as usize);
+        kmer_case::<Dna, 13, u64>(o, w & ((1 << 26) - 1));
         kmer_case::<Dna, 32, usize>(o, w as usize);
         kmer_case::<Dna, 32, u64>(o, w);
         kmer_case::<Iupac, 16, usize>(o, w as usize);
@@ -226,6 +234,7 @@ fn replay(hname: &str, hex: &str) -> bool {
     match hname {
         "kmer_bincode_dna_k1" => kmer_case::<Dna, 1, usize>(&mut o, v as usize),
         "kmer_bincode_dna_k8" => kmer_case::<Dna, 8, usize>(&mut o, v as usize),
+        "kmer_bincode_dna_k17" => kmer_case::<Dna, 17, usize>(&mut o, v as usize),
         "kmer_bincode_dna_k32" => kmer_case::<Dna, 32, usize>(&mut o, v as usize),
         "kmer_bincode_iupac_k16" => kmer_case::<Iupac, 16, usize>(&mut o, v as usize),
         "kmer_bincode_dna_k32_u64" => kmer_case::<Dna, 32, u64>(&mut o, v as u64),
